@@ -284,6 +284,132 @@ fn exit_ops(repo: &str) -> R<String> {
     Ok(out)
 }
 
+// ---------------------------------------------------------------------------------------------------------
+// Special extractor: the option tables (C20).  Everything a reader of the README, a stylua.toml, the command line or
+// an .editorconfig can name: enum variants and defaults of the library, the clap mirror enums, which fields
+// load_overrides / editorconfig::load assign, and the README option table.
+fn coq_str(s: &str) -> String { format!("\"{}\"%string", s.replace('"', "\"\"")) }
+fn coq_list(v: &[String]) -> String { format!("[{}]", v.join("; ")) }
+fn has_attr(attrs: &[Attribute], name: &str) -> bool { attrs.iter().any(|a| a.path().is_ident(name)) }
+
+struct FieldAssigns { var: String, fields: Vec<String> }
+impl<'ast> syn::visit::Visit<'ast> for FieldAssigns {
+    fn visit_expr_assign(&mut self, a: &'ast ExprAssign) {
+        if let Expr::Field(f) = &*a.left {
+            if let (Expr::Path(p), Member::Named(id)) = (&*f.base, &f.member) {
+                if p.path.is_ident(&self.var) && !self.fields.contains(&id.to_string()) { self.fields.push(id.to_string()); }
+            }
+        }
+        syn::visit::visit_expr_assign(self, a);
+    }
+}
+fn fn_assigns(f: &File, func: &str, var: &str) -> R<Vec<String>> {
+    let item = find_fn(f, func).ok_or(format!("function {} not found", func))?;
+    let mut v = FieldAssigns { var: var.to_string(), fields: vec![] };
+    syn::visit::visit_item_fn(&mut v, item);
+    Ok(v.fields)
+}
+fn macro_tokens(f: &File, name: &str) -> Vec<proc_macro2::TokenStream> {
+    f.items.iter().filter_map(|it| match it { Item::Macro(m) if m.mac.path.is_ident(name) => Some(m.mac.tokens.clone()), _ => None }).collect()
+}
+fn option_tables(repo: &str) -> R<String> {
+    use proc_macro2::TokenTree;
+    let read = |rel: &str| -> R<File> {
+        let path = format!("{}/{}", repo, rel);
+        let src = std::fs::read_to_string(&path).map_err(|e| format!("{}: {}", path, e))?;
+        parse_file(&src).map_err(|e| format!("{}: {}", path, e))
+    };
+    let lib = read("src/lib.rs")?;
+    let mut lib_enums = vec![]; let mut lib_defaults = vec![]; let mut config_fields = vec![]; let mut numeric_defaults = vec![];
+    for it in &lib.items {
+        match it {
+            Item::Enum(e) if has_attr(&e.attrs, "derive") => {
+                let vs: Vec<String> = e.variants.iter().map(|v| coq_str(&v.ident.to_string())).collect();
+                lib_enums.push(format!("({}, {})", coq_str(&e.ident.to_string()), coq_list(&vs)));
+                if let Some(d) = e.variants.iter().find(|v| has_attr(&v.attrs, "default")) {
+                    lib_defaults.push(format!("({}, {})", coq_str(&e.ident.to_string()), coq_str(&d.ident.to_string())));
+                }
+            }
+            Item::Struct(st) if st.ident == "Config" => {
+                for fld in &st.fields {
+                    let ty = fld.ty.to_token_stream().to_string();
+                    config_fields.push(format!("({}, {}, {})", coq_str(&fld.ident.as_ref().unwrap().to_string()), coq_str(&ty), if has_attr(&fld.attrs, "deprecated") { "true" } else { "false" }));
+                }
+            }
+            Item::Impl(im) if im.trait_.as_ref().map_or(false, |t| t.1.is_ident("Default")) && im.self_ty.to_token_stream().to_string() == "Config" => {
+                struct Lits(Vec<String>);
+                impl<'ast> syn::visit::Visit<'ast> for Lits {
+                    fn visit_field_value(&mut self, fv: &'ast FieldValue) {
+                        if let (Member::Named(id), Expr::Lit(ExprLit { lit: Lit::Int(i), .. })) = (&fv.member, &fv.expr) {
+                            self.0.push(format!("({}, {})", coq_str(&id.to_string()), coq_str(&i.base10_digits().to_string())));
+                        }
+                    }
+                }
+                let mut l = Lits(vec![]); syn::visit::visit_item_impl(&mut l, im); numeric_defaults = l.0;
+            }
+            _ => {}
+        }
+    }
+    let opt = read("src/cli/opt.rs")?;
+    let mut cli_enums = vec![];
+    for ts in macro_tokens(&opt, "convert_enum") {
+        let tt: Vec<TokenTree> = ts.into_iter().collect();
+        let idents: Vec<String> = tt.iter().filter_map(|t| if let TokenTree::Ident(i) = t { Some(i.to_string()) } else { None }).collect();
+        let group = tt.iter().find_map(|t| if let TokenTree::Group(g) = t { Some(g.stream()) } else { None }).ok_or("convert_enum! without a variant list")?;
+        let vs: Vec<String> = group.into_iter().filter_map(|t| if let TokenTree::Ident(i) = t { Some(coq_str(&i.to_string())) } else { None }).collect();
+        if idents.len() < 2 { return Err("convert_enum! without two type names".into()); }
+        cli_enums.push(format!("({}, {}, {})", coq_str(&idents[0]), coq_str(&idents[1]), coq_list(&vs)));
+    }
+    let mut format_opts = vec![];
+    for it in &opt.items { if let Item::Struct(st) = it { if st.ident == "FormatOpts" { for fld in &st.fields { format_opts.push(coq_str(&fld.ident.as_ref().unwrap().to_string())); } } } }
+    let cfgrs = read("src/cli/config.rs")?;
+    let overrides: Vec<String> = fn_assigns(&cfgrs, "load_overrides", "new_config")?.iter().map(|s| coq_str(s)).collect();
+    let ec = read("src/editorconfig.rs")?;
+    let ec_fields: Vec<String> = fn_assigns(&ec, "load", "config")?.iter().map(|s| coq_str(s)).collect();
+    let mut ec_choices = vec![];
+    for ts in macro_tokens(&ec, "property_choice") {
+        let tt: Vec<TokenTree> = ts.into_iter().collect();
+        let key = tt.iter().find_map(|t| if let TokenTree::Literal(l) = t { Some(l.to_string().trim_matches('"').to_string()) } else { None }).ok_or("property_choice! without a key")?;
+        let mut pairs = vec![];
+        for t in &tt { if let TokenTree::Group(g) = t {
+            let inner: Vec<TokenTree> = g.stream().into_iter().collect();
+            let v = inner.iter().find_map(|t| if let TokenTree::Ident(i) = t { Some(i.to_string()) } else { None });
+            let s = inner.iter().find_map(|t| if let TokenTree::Literal(l) = t { Some(l.to_string().trim_matches('"').to_string()) } else { None });
+            if let (Some(v), Some(s)) = (v, s) { pairs.push(format!("({}, {})", coq_str(&v), coq_str(&s))); }
+        } }
+        ec_choices.push(format!("({}, {})", coq_str(&key), coq_list(&pairs)));
+    }
+    // README table
+    let readme = std::fs::read_to_string(format!("{}/README.md", repo)).map_err(|e| e.to_string())?;
+    let mut rows = vec![];
+    for l in readme.lines() {
+        if !l.starts_with("| `") { continue; }
+        let cols: Vec<&str> = l.split('|').map(|c| c.trim()).collect();
+        if cols.len() < 4 { continue; }
+        let ticks = |s: &str| -> Vec<String> { s.split('`').enumerate().filter(|(i, _)| i % 2 == 1).map(|(_, x)| x.to_string()).collect() };
+        let name = ticks(cols[1]).get(0).cloned().unwrap_or_default();
+        let default = ticks(cols[2]).get(0).cloned().unwrap_or_default();
+        let possible: Vec<String> = match cols[3].split_once("Possible options:") {
+            // the list of values ends with the sentence that introduces it
+            Some((_, rest)) => ticks(rest.split(". ").next().unwrap_or(rest)).iter().map(|s| coq_str(s)).collect(),
+            None => vec![],
+        };
+        rows.push(format!("({}, {}, {})", coq_str(&name), coq_str(&default), coq_list(&possible)));
+    }
+    let mut out = String::from("(* GENERATED by rs2v from src/lib.rs, src/cli/opt.rs, src/cli/config.rs, src/editorconfig.rs, README.md -- do not edit *)\nFrom Coq Require Import List String.\nImport ListNotations.\n");
+    out += &format!("Definition lib_enums : list (string * list string) :=\n  {}.\n", coq_list(&lib_enums));
+    out += &format!("Definition lib_defaults : list (string * string) :=\n  {}.\n", coq_list(&lib_defaults));
+    out += &format!("Definition config_fields : list (string * string * bool) :=\n  {}.\n", coq_list(&config_fields));
+    out += &format!("Definition numeric_defaults : list (string * string) :=\n  {}.\n", coq_list(&numeric_defaults));
+    out += &format!("Definition cli_enums : list (string * string * list string) :=\n  {}.\n", coq_list(&cli_enums));
+    out += &format!("Definition format_opts_fields : list string :=\n  {}.\n", coq_list(&format_opts));
+    out += &format!("Definition override_fields : list string :=\n  {}.\n", coq_list(&overrides));
+    out += &format!("Definition editorconfig_fields : list string :=\n  {}.\n", coq_list(&ec_fields));
+    out += &format!("Definition editorconfig_choices : list (string * list (string * string)) :=\n  {}.\n", coq_list(&ec_choices));
+    out += &format!("Definition readme_options : list (string * string * list string) :=\n  {}.\n", coq_list(&rows));
+    Ok(out)
+}
+
 fn main() {
     let args: Vec<String> = std::env::args().collect();
     let repo = args.get(1).map(|s| s.as_str()).unwrap_or("/repo");
@@ -327,6 +453,19 @@ fn main() {
         }
         Err(e) => {
             println!("UNTRANSLATABLE exit_ops {}", e.replace('\n', " "));
+            failed = true;
+        }
+    }
+    match option_tables(repo) {
+        Ok(text) => {
+            let out = format!("{}/OptionTables.v", outdir);
+            if std::fs::read_to_string(&out).ok().as_deref() != Some(text.as_str()) {
+                std::fs::write(&out, text).unwrap();
+            }
+            println!("TRANSLATED option_tables {}", out);
+        }
+        Err(e) => {
+            println!("UNTRANSLATABLE option_tables {}", e.replace('\n', " "));
             failed = true;
         }
     }
